@@ -41,7 +41,16 @@ def is_random_cfg(env: str, cfg: Dict[str, Any]) -> bool:
         return False
     if env == "SlidingTilePuzzle" and cfg.get("moves", 100) == 0:
         return False
-    return (env, cfg.get("gen")) not in DETERMINISTIC
+    if (env, cfg.get("gen")) in DETERMINISTIC:
+        return False
+    # the model modules know the degenerate sizes on which a random construction leaves no choice (FlatPack 1x1 block,
+    # 3x3 Cleaner mazes, Minesweeper without mines ...)
+    from jmon.modelapi import get_model
+
+    m = get_model(env)
+    if m is not None and hasattr(m, "RANDOM_GENERATOR") and not m.RANDOM_GENERATOR(cfg):
+        return False
+    return True
 
 
 def pick_cfgs(env: str, tier: str) -> List[Dict[str, Any]]:
